@@ -173,6 +173,31 @@ theorem path_join_fmt_wf (s p : List Nat) (hs : WFU s) (hp : 0 ∉ p) : ∃ u, p
   obtain ⟨cs, rfl, h1⟩ := (wfu_iff s).1 hs
   exact ⟨_, pathJoinFmt_eq cs p h1 hp, wfu_snoc (joinSpec_nulfree cs p h1 hp)⟩
 
+/-- `from_format` for every `Arguments` shape (literal format string, literal around run-time
+arguments, arguments only): NUL-free pieces ⇒ the rendered bytes + one NUL, a UnixStr -/
+theorem from_format_args_wf (sh : FmtShape) (l x y : List Nat) (hl : 0 ∉ l) (hx : 0 ∉ x) (hy : 0 ∉ y) :
+    fromFormatArgs sh l x y = .ok (render sh l x y ++ [0]) ∧ WFU (render sh l x y ++ [0]) := by
+  have h : 0 ∉ render sh l x y := by cases sh <;> simp [render, hl, hx, hy]
+  exact (from_format_wf _).1 h
+
+/-- … and a literal that carries its own terminator (`format_args!("…\0")`, the documented use) is kept as is -/
+theorem from_format_terminated_literal (c : List Nat) (hc : 0 ∉ c) :
+    fromFormatArgs .lit (c ++ [0]) [] [] = .ok (c ++ [0]) :=
+  (from_format_wf _).2 (wfu_snoc hc)
+
+/-- `path_join_fmt` for every `Arguments` shape with NUL-free pieces is a UnixStr -/
+theorem path_join_fmt_args_wf (s : List Nat) (sh : FmtShape) (l x y : List Nat) (hs : WFU s)
+    (hl : 0 ∉ l) (hx : 0 ∉ x) (hy : 0 ∉ y) : ∃ u, pathJoinFmtArgs s sh l x y = .ok u ∧ WFU u := by
+  have h : 0 ∉ render sh l x y := by cases sh <;> simp [render, hl, hx, hy]
+  exact path_join_fmt_wf s _ hs h
+
+/-- the shape of the `Arguments` is not an input of either entry point: equal renderings, equal results -/
+theorem fmt_shape_independent (s : List Nat) (sh sh' : FmtShape) (l x y l' x' y' : List Nat)
+    (h : render sh l x y = render sh' l' x' y') :
+    fromFormatArgs sh l x y = fromFormatArgs sh' l' x' y' ∧
+    pathJoinFmtArgs s sh l x y = pathJoinFmtArgs s sh' l' x' y' := by
+  simp only [fromFormatArgs, pathJoinFmtArgs, h, and_self]
+
 /-- `path_file_name` re-slices `[ind+1..]`, keeping the terminator -/
 theorem file_name_wf (s : List Nat) (hs : WFU s) :
     ∃ o, pathFileName s = .ok o ∧ ∀ u, o = some u → WFU u := by
@@ -292,5 +317,9 @@ example : tryFromBorrowed (List.replicate 4096 97 ++ [0]) = .ok (List.replicate 
 /-- an interior NUL coming out of a format argument passes through `from_format` (outside the property:
 "for NUL-free inputs") — recorded, not hidden -/
 example : fromFormat [97, 0, 98] = .ok [97, 0, 98, 0] := by decide
+example : fromFormatArgs .lit [] [] [] = .ok [0] := by decide
+example : fromFormatArgs .litArgArg [47] [97] [98] = .ok [47, 97, 98, 0] := by decide
+example : fromFormatArgs .lit [97, 0] [] [] = .ok [97, 0] := by decide
+example : pathJoinFmtArgs [0] .lit [97] [] [] = .ok [97, 0] := by decide
 
 end TinyVerif.UnixStr
